@@ -75,7 +75,11 @@ def explore(fn, event, start_depth=0, cap=3, flags=None, stop_at=None):
             if s[0] == 'A' and not s[1][1] and s[1][0] in flags:
                 rv = s[2]
                 envd[s[1][0]] = (rv[1][2].replace('const ', '') == 'true')
-        d2 = depth + event(fn, b)
+        ev = event(fn, b)
+        if isinstance(ev, tuple):
+            d2 = ev[1]            # ('set', value): typestate-style events
+        else:
+            d2 = depth + ev
         d2 = max(min(d2, cap), -cap)
         t = bb['t']
         if t['k'] == 'ret' or (stop_at and b in stop_at):
